@@ -231,6 +231,8 @@ def handle : Handler := fun input impl =>
     if (l.bigat != 0 ∨ l.mas != 0) ∧ !(l.inp.kind.hasFilter ∨ l.inp.kind == .genericJson) then ("-", "fail:driver:this kind has no sized entries") else
     if l.bigat > l.fileN then ("-", "fail:driver:bigat beyond the last entry") else
     let ikv := parseKV impl
+    -- the harness' process did not get the CPU for seconds (scheduling canary): nothing can be said about the provider
+    if getS ikv "end" == "starved" then ("-", "skip:inconclusive-starved-machine") else
     if oversize l ∧ (l.mode != .drain ∨ l.faults.any) then ("-", "skip:entry-exceeds-maxammosize") else
     match lookup ikv "construct" with
     | some e =>
